@@ -9,6 +9,7 @@ import DltVerif.Model.Bits
 import DltVerif.Model.Encode
 import DltVerif.Lemmas.Bits
 import DltVerif.Spec.Codes
+import DltVerif.Lemmas.CodecTypeInfo
 
 namespace Dlt
 
@@ -84,6 +85,16 @@ theorem C14_ti_stable (w : BitVec 32) :
 /-- the encoding is the same in both byte orders up to byte reversal -/
 theorem C14_ti_order (d : TypeInfo) : d.asBytes .big = (d.asBytes .little).reverse := by
   simp [TypeInfo.asBytes, Endian.bytes, bytesBE]
+
+/-- all 2^32 words: a word is accepted exactly when it names one supported kind with a
+    supported width (Spec/TypeInfo.lean, by weights) -/
+theorem C14_ti_accept (w : BitVec 32) : (TypeInfo.ofU32 w).isSome = Spec.tiSupported w.toNat :=
+  ofU32_isSome w
+
+/-- all 2^32 words: the decoded description is the one the bit layout prescribes (kind and
+    width from TYLE and the kind bits, VARI, TRAI, SCOD by weights) -/
+theorem C14_ti_layout (w : BitVec 32) : TypeInfo.ofU32 w = Spec.tiDecode w.toNat :=
+  ofU32_eq_tiDecode w
 
 -- non-vacuity: a word with unused bits set (reserved bits, STRU) decodes and re-encodes
 example : TypeInfo.ofU32 0xFFFC4823#32 = some
